@@ -204,9 +204,138 @@ Section Half.
       all: try (cbn; congruence).
       all: try (unfold seg_len; cbn; fold n; lia).
     - unfold acking. subst ty2 ty1. tcb_simpl. fold n. rewrite Q4, Q9. cbn [app].
-      splits; try assumption; try reflexivity; try congruence; try apply wadd_u32.
-      eexists. split; [|split; [apply ack_hdr_ack_only|]].
-      + f_equal. f_equal. unfold ack_hdr; tcb_simpl. reflexivity.
-      + unfold ack_hdr; tcb_simpl. cbn. rewrite Q3, Q4, Q6. auto.
+      splits; try assumption; try reflexivity; try congruence; try apply wadd_u32; try lia.
+      eexists. split; [reflexivity|]. split; [apply ack_hdr_ack_only|].
+      unfold ack_hdr; tcb_simpl. cbn. rewrite Q3, Q6. auto.
+  Qed.
+
+  (* the receiver's half-round: emit both ACKs, the writer's retransmission queue empties *)
+  Lemma half_ack s y ty tz a b n :
+    end_of s y = ELive ty -> end_of s (other y) = ELive tz ->
+    net_of s y = [] -> net_of s (other y) = [] -> panicked s = false ->
+    acking ty b (wadd a n) -> waiting tz a b n -> 0 < n < H31 ->
+    let s' := fair_half c s y in
+    exists ty' tz', end_of s' y = ELive ty' /\ end_of s' (other y) = ELive tz' /\
+      net_of s' y = [] /\ net_of s' (other y) = [] /\ panicked s' = false /\
+      (forall x, sub_of s' x = sub_of s x) /\ (forall x, del_of s' x = del_of s x) /\
+      quiet ty' b (wadd a n) /\ quiet tz' (wadd a n) b /\ mtu ty' = mtu ty /\ mtu tz' = mtu tz.
+  Proof.
+    intros Ey Ez Ny Nz Pn
+      (A1 & A2 & A3 & A4 & A5 & A6 & A7 & A8 & (h & A9 & Hh & Hhs & Hha & Hhw) & A10 & A11 & A12 & A13 & A14 & A15 & A16 & A17)
+      (W1 & W2 & W3 & W4 & W5 & W6 & W7 & W8 & (tx & W9 & Htxs & Htxl & Htxn) & W10 & W11 & W12 & W13 & W14 & W15 & W16 & W17)
+      Hn s'.
+    set (sh := mkSeg h []).
+    (* 1: the ACKs leave *)
+    assert (E1 : tcb_segments ty = Ok (set_retx (set_oneshot ty []) [], [sh; sh])).
+    { rewrite segments_nothing_new; try assumption; try (rewrite A1; reflexivity); try lia.
+      rewrite A8, A9. cbn [map filter app]. reflexivity. }
+    set (ty1 := set_retx _ _) in E1.
+    pose proof (advance_101 ty1 A13 A14) as E2.
+    assert (Er1 : retx ty1 = []) by reflexivity. rewrite Er1 in E2. cbn [map] in E2.
+    set (ty2 := set_retx _ _) in E2.
+    assert (E3 : tcb_segments ty2 = Ok (set_retx (set_oneshot ty2 []) [], [])).
+    { rewrite segments_nothing_new.
+      - subst ty2 ty1; tcb_simpl. cbn [map filter app]. reflexivity.
+      - exact A7.
+      - exact A10.
+      - change (st ty2) with (st ty). now rewrite A1.
+      - change (mtu ty2) with (mtu ty). lia. }
+    set (ty3 := set_retx _ _) in E3.
+    unfold s', fair_half, fair_half_t.
+    rewrite (tick_eval s y ty ty1 [sh; sh] ty2 101 Ey E1 E2). rewrite Ny. cbn [app].
+    set (s1 := set_end (set_net _ _ _) y (ELive ty2)).
+    assert (Ey1 : end_of s1 y = ELive ty2) by (subst s1; now sysr).
+    rewrite (emit_eval s1 y ty2 ty3 [] Ey1 E3). cbn iota beta.
+    assert (Ny1 : net_of s1 y = [sh; sh]) by (subst s1; now sysr). rewrite Ny1. cbn [app].
+    set (s2 := set_net _ y [sh; sh]).
+    assert (Ny2 : net_of s2 y = [sh; sh]) by (subst s2; now sysr).
+    rewrite Ny2. cbn iota. cbn [length].
+    (* 2: the first ACK empties the retransmission queue *)
+    rewrite (deliver_all_cons _ c s2 y sh [sh] Ny2).
+    set (s2' := set_net s2 y [sh]).
+    assert (Ez2 : end_of s2' (other y) = ELive tz) by (subst s2' s2 s1; now sysr).
+    destruct (ack_arrives tz h tx n W1 W11 W6 ltac:(rewrite W4; exact W16) Hh ltac:(congruence)
+                ltac:(congruence) Hhw W5 ltac:(rewrite W2; exact W15) ltac:(congruence) Hn W9
+                ltac:(congruence) Htxl) as (w1 & w2 & E4).
+    fold sh in E4. set (tz1 := set_snd_window _ _ _ _) in E4.
+    rewrite (arrive_eval c s2' (other y) tz sh tz1 Ez2 E4).
+    set (s3 := set_end s2' (other y) (ELive tz1)).
+    (* 3: the second ACK is a duplicate *)
+    assert (Ny3 : net_of s3 y = [sh]) by (subst s3 s2'; now sysr).
+    rewrite (deliver_all_cons _ c s3 y sh [] Ny3).
+    set (s3' := set_net s3 y []).
+    assert (Ez3 : end_of s3' (other y) = ELive tz1) by (subst s3' s3; now sysr).
+    assert (E5 : segment_arrives tz1 sh = Ok (set_in_segs tz1 [], AOk)).
+    { apply ack_duplicate; try assumption; try reflexivity.
+      - change (rcv_nxt tz1) with (rcv_nxt tz). rewrite W4. exact W16.
+      - change (rcv_nxt tz1) with (rcv_nxt tz). congruence.
+      - change (snd_una tz1) with (snd_nxt tz). rewrite Hha, W3. apply mod_leq_refl. }
+    set (tz2 := set_in_segs tz1 []) in E5.
+    rewrite (arrive_eval c s3' (other y) tz1 sh tz2 Ez3 E5).
+    set (s4 := set_end s3' (other y) (ELive tz2)).
+    assert (Ny4 : net_of s4 y = []) by (subst s4 s3'; now sysr).
+    rewrite (deliver_all_nil _ c s4 y Ny4).
+    (* 4: nothing to read *)
+    rewrite (recv_both s4 y).
+    assert (Ey4 : end_of s4 y = ELive ty3) by (subst s4 s3' s3 s2' s2; now sysr).
+    rewrite (recv_eval_empty s4 y ty3 Ey4 A12).
+    set (s5 := set_end s4 y _).
+    assert (Ez5 : end_of s5 (other y) = ELive tz2) by (subst s5 s4; now sysr).
+    rewrite (recv_eval_empty s5 (other y) tz2 Ez5 W12).
+    exists (set_in_text ty3 []), (set_in_text tz2 []).
+    splits.
+    all: try (subst s5 s4 s3' s3 s2' s2 s1; now sysr).
+    all: try reflexivity.
+    all: try (intros x; subst s5 s4 s3' s3 s2' s2 s1; now sysr).
+    all: unfold quiet; subst ty3 ty2 ty1 tz2 tz1; tcb_simpl;
+      splits; try assumption; try reflexivity; try congruence; try lia; try apply wadd_u32.
+  Qed.
+
+  (* an endpoint with nothing to do *)
+  Lemma half_idle s y ty tz a r :
+    end_of s y = ELive ty -> quiet ty a r -> net_of s y = [] ->
+    end_of s (other y) = ELive tz -> in_text tz = [] ->
+    fair_half c s y = s.
+  Proof.
+    intros Ey (Q1 & Q2 & Q3 & Q4 & Q5 & Q6 & Q7 & Q8 & Q9 & Q10 & Q11 & Q12 & Q13 & Q14 & Q15 & Q16 & Q17)
+      Ny Ez Hz.
+    assert (E1 : tcb_segments ty = Ok (set_retx (set_oneshot ty []) [], [])).
+    { rewrite segments_nothing_new; try assumption; try (rewrite Q1; reflexivity); try lia.
+      rewrite Q8, Q9. reflexivity. }
+    set (ty1 := set_retx _ _) in E1.
+    pose proof (advance_101 ty1 Q13 Q14) as E2.
+    assert (Er1 : retx ty1 = []) by reflexivity. rewrite Er1 in E2. cbn [map] in E2.
+    set (ty2 := set_retx _ _) in E2.
+    assert (E3 : tcb_segments ty2 = Ok (set_retx (set_oneshot ty2 []) [], [])).
+    { rewrite segments_nothing_new.
+      - subst ty2 ty1; tcb_simpl. cbn [map filter app]. reflexivity.
+      - exact Q7.
+      - exact Q10.
+      - change (st ty2) with (st ty). now rewrite Q1.
+      - change (mtu ty2) with (mtu ty). lia. }
+    set (ty3 := set_retx _ _) in E3.
+    unfold fair_half, fair_half_t.
+    rewrite (tick_eval s y ty ty1 [] ty2 101 Ey E1 E2). rewrite Ny. cbn [app].
+    set (s1 := set_end (set_net _ _ _) y (ELive ty2)).
+    assert (Ey1 : end_of s1 y = ELive ty2) by (subst s1; now sysr).
+    rewrite (emit_eval s1 y ty2 ty3 [] Ey1 E3). cbn iota beta.
+    assert (Ny1 : net_of s1 y = []) by (subst s1; now sysr). rewrite Ny1. cbn [app].
+    set (s2 := set_net _ y []).
+    assert (Ny2 : net_of s2 y = []) by (subst s2; now sysr).
+    rewrite (deliver_all_nil _ c s2 y Ny2).
+    rewrite (recv_both s2 y).
+    assert (Ey2 : end_of s2 y = ELive ty3) by (subst s2; now sysr).
+    rewrite (recv_eval_empty s2 y ty3 Ey2 Q12).
+    set (s3 := set_end s2 y _).
+    assert (Ez3 : end_of s3 (other y) = ELive tz) by (subst s3 s2 s1; now sysr).
+    rewrite (recv_eval_empty s3 (other y) tz Ez3 Hz).
+    apply sys_ext.
+    - intros x. destruct (side_cases y x) as [-> | ->]; subst s3 s2 s1; sysr.
+      + rewrite Ey. f_equal. subst ty3 ty2 ty1. tcb_eq; congruence.
+      + rewrite Ez. f_equal. tcb_eq. congruence.
+    - intros x. destruct (side_cases y x) as [-> | ->]; subst s3 s2 s1; sysr; congruence.
+    - intros x. subst s3 s2 s1. now sysr.
+    - intros x. subst s3 s2 s1. now sysr.
+    - subst s3 s2 s1. now sysr.
   Qed.
 End Half.
